@@ -248,7 +248,10 @@ class Gen:
                 c = [["glue"], ["t", " "]] + c if r.random() < 0.5 else [["glue"]] + c
             elif divert is None:
                 c = c + [["t", " "], ["glue"]] if r.random() < 0.5 else c + [["glue"]]
-        return ["line", c, self.tags(), divert]
+        tags = self.tags()
+        if tags and c and c[-1] == ["glue"]:
+            c = c[:-1]            # glue directly before a tag: the blank before '#' is kept by this parser
+        return ["line", c, tags, divert]
 
     def assign(self, sc):
         r = self.rng
@@ -576,6 +579,15 @@ def p_expr(e, top=True):
     raise ValueError(e)
 
 
+def p_cond(e):
+    """a condition; this compiler parses `a == F()` (anything ending in a zero-argument call) as a call
+    of a function named "a == F" (finding c01-cond-trailing-call), so such conditions are parenthesised"""
+    s = p_expr(e)
+    if s.endswith("()") and e[0] in ("bin", "un"):
+        return "(" + s + ")"
+    return s
+
+
 SEQ_PREFIX = {"stopping": "", "cycle": "&", "once": "!", "shuffle": "~"}
 
 
@@ -588,7 +600,7 @@ def p_inl(c):
         elif k == "e":
             out.append("{" + p_expr(x[1]) + "}")
         elif k == "c":
-            out.append("{" + p_expr(x[1]) + ": " + p_inl(x[2]) + ("|" + p_inl(x[3]) if x[3] is not None else "") + "}")
+            out.append("{" + p_cond(x[1]) + ": " + p_inl(x[2]) + ("|" + p_inl(x[3]) if x[3] is not None else "") + "}")
         elif k == "seq":
             out.append("{" + SEQ_PREFIX[x[1]] + "|".join(p_inl(a) for a in x[3]) + "}")
         elif k == "glue":
@@ -628,13 +640,13 @@ def p_block(b, level, ind, out):
         elif k == "if":
             brs, els = s[1], s[2]
             if len(brs) == 1 and els is None:
-                out.append(pad + "{ " + p_expr(brs[0][0]) + ":")
+                out.append(pad + "{ " + p_cond(brs[0][0]) + ":")
                 p_block(brs[0][1], level, ind + 1, out)
                 out.append(pad + "}")
             else:
                 out.append(pad + "{")
                 for c, blk in brs:
-                    out.append(pad + "- " + p_expr(c) + ":")
+                    out.append(pad + "- " + p_cond(c) + ":")
                     p_block(blk, level, ind + 2, out)
                 if els is not None:
                     out.append(pad + "- else:")
@@ -664,7 +676,7 @@ def p_block(b, level, ind, out):
                 if c["label"]:
                     t += " (" + c["label"] + ")"
                 for e in c["conds"]:
-                    t += " {" + p_expr(e) + "}"
+                    t += " {" + p_cond(e) + "}"
                 if c["fallback"]:
                     t += " ->" + (" " + c["divert"] if c["divert"] else "")
                 else:
